@@ -97,7 +97,9 @@ class Spy(object):
 
 
 FAULT_TYPES = [InjectedFault, ValueError, ZeroDivisionError, OverflowError, StopIteration, KeyError, AttributeError, TypeError,
-               IndexError, RuntimeError, AssertionError, ArithmeticError, LookupError, FloatingPointError]
+               IndexError, RuntimeError, AssertionError, ArithmeticError, LookupError, FloatingPointError,
+               # not Exception subclasses: a user pressing Ctrl-C during a long tabulation, a function that calls sys.exit()
+               KeyboardInterrupt, GeneratorExit, SystemExit]
 
 
 class Failpoint(object):
